@@ -7,7 +7,7 @@ PROP = "C14"
 ALSO = ("C20",)  # Key.transpose_key's contract speaks for C20; a key that becomes undefined is a C14 violation too
 MONITORS = ["transpose"]
 INSITU = {"k": "transpose or bar or composition"}
-RULE = ("seeded well-formed sequences hugging both range limits (21..108) or mid-range, with/without key-signature events "
+RULE = ("seeded well-formed sequences hugging both range limits (21..108), mid-range, or containing legal MIDI pitches outside the playable range (0..20, 109..127; also with interval 0), with/without key-signature events "
         "(all 15 keys), and Bars with a key, x intervals {0, +-1..+-11, +-12, +-24, +-13, +-88, +-100, random in +-130}; the "
         "contracts on the real transpose functions decide range / pitch-class image / return value / exact shift / key "
         "events / bar key; the driver checks that transposing back restores the original when nothing wrapped. "
@@ -15,7 +15,8 @@ RULE = ("seeded well-formed sequences hugging both range limits (21..108) or mid
 PLAN = {"quick": {"cases": 6000, "jobs": 4, "timeout": 600},
         "thorough": {"cases": 2000000, "jobs": 16, "timeout": 3000, "budget_s": 360}}
 FLOORS = {"quick": {"transpose.exact_shift.armed": 1500, "transpose.key_events.armed": 1500, "bar_transpose.bar_key.armed": 500,
-                    "c14.wrapped": 1000, "c14.multiple_of_12_with_key": 150},
+                    "c14.wrapped": 1000, "c14.multiple_of_12_with_key": 150, "c14.source_outside_playable_range": 400,
+                    "c14.interval_zero_with_source_outside_range": 100},
           "thorough": {"transpose.exact_shift.armed": 50000, "transpose.key_events.armed": 50000}}
 INTERVALS = [0, 1, -1, 2, -3, 5, 7, -7, 11, -11, 12, -12, 24, -24, 13, -13, 30, -30, 88, -88, 100, -100, 36, -36]
 
@@ -47,6 +48,18 @@ def make_case(rng, i, tier):
             prefix = [{"op": "transpose", "k": rng.choice([1, -1, 2])},
                       {"op": "concat_copy", "notes": [[0, base + j, 6 * j, 12, 50 + j] for j in range(rng.randint(1, 3))]}]
             iv = rng.choice([3, 5, 7, -3, -5, -7, 13, -13])
+    if i % 8 == 5 and not prefix:
+        # legal MIDI pitches OUTSIDE the playable range 21..108 (a loaded file may contain them): "any interval" includes 0 and
+        # multiples of 12, and every resulting note has to be inside the range, so even interval 0 must move these notes
+        import random
+        r2 = random.Random(f"c14-outside:{i}")
+        used = sorted(set(n[1] for n in notes))
+        targets = r2.sample([0, 3, 12, 19, 20, 109, 110, 115, 120, 127], min(len(used), r2.randint(1, 3)))
+        pm = dict(zip(r2.sample(used, len(targets)), targets))
+        for n in notes:
+            n[1] = pm.get(n[1], n[1])
+        iv = r2.choice([0, 0, 0, 12, -12, 24, 5, -7, 1, -1])
+        zone = "outside"
     case = {"seq": spec, "interval": iv, "bar": asbar, "zone": zone, "prefix": prefix}
     if asbar:
         # a 4/4 bar worth of material (duration <= 96), no time signature of its own; key-signature messages stay (a key
@@ -69,6 +82,10 @@ def run(case, ctx):
     haskey = any(e[0] == "ks" for e in case["seq"]["extra"]) or case.get("bar_key")
     if iv % 12 == 0 and iv != 0 and haskey:
         LOG.n("c14.multiple_of_12_with_key")
+    if any(not 21 <= n[1] <= 108 for n in before["notes"]):
+        LOG.n("c14.source_outside_playable_range")
+        if iv == 0:
+            LOG.n("c14.interval_zero_with_source_outside_range")
     if case["bar"]:
         b = Bar(s, 4, 4, Key(case["bar_key"]) if case.get("bar_key") else None)
         b0 = obs(b.sequence)
@@ -81,7 +98,8 @@ def run(case, ctx):
     after = obs(target)
     if ret:
         LOG.n("c14.wrapped")
-    else:
+    elif all(21 <= n[1] <= 108 for n in before["notes"]):
+        # (a source pitch outside the playable range cannot come back: the way back has to move it into the range)
         c = target.copy()
         r2 = c.transpose(-iv)
         back = obs(c)
